@@ -333,7 +333,7 @@ impl Check for C12 {
     fn n_cases(&self, tier: Tier) -> u64 {
         let k = kinds::C12_KINDS.len() as u64;
         match tier {
-            Tier::Quick => 40 * k,
+            Tier::Quick => 120 * k,
             Tier::Thorough => 4000 * k,
         }
     }
@@ -396,6 +396,10 @@ impl Check for C12 {
             }
         };
         ctx.stats.kind(p.file.kind.name());
+        // CRAM files whose decoding costs tens of ms (bzip2 / lzma / fqzcomp block codecs, many
+        // records) get the boundary-focused split set instead of every split point: decided from the
+        // plan, never from a clock
+        let slow_cram = matches!(&made.model, kinds::Model::Cram { opts, model, .. } if matches!(opts.encoder, 3 | 4 | 9) || model.records.len() > 40);
         for &variant in &variants {
             let o0 = kinds::read(p.file.kind, variant, Source::plain(made.bytes.clone()));
             if let End::Panic { msg, .. } = &o0.end {
@@ -404,7 +408,7 @@ impl Check for C12 {
                 continue;
             }
             match &p.mode {
-                Mode::Exhaustive { wrap } if len <= 1500 => {
+                Mode::Exhaustive { wrap } if len <= 1500 && !slow_cram => {
                     // every single split point
                     for k in 1..len {
                         let d = Delivery {
